@@ -1,5 +1,5 @@
 """C20 - column-store sparse and skip indexes never prune a block with a match. See DESIGN.md section 4 C20 and
-props/C20/NOTES.md.
+props/C20/NOTES.md (round 4: writer's order of null keys + null index cell readings, tokenizer tie, min-max obligations).
 
 Decision procedure:
   1. Coq: audit, build, re-check Props.v / Refuted.v.
@@ -310,8 +310,9 @@ def tok_stream(ck, bcases, splitbytes):
     if not vals or not splitbytes:
         return {"values": 0, "pairs": 0, "writer": writer}
     nl = lambda xs: "(" + coq_list(["%d" % x for x in xs]) + " : list N)"
-    # quick tier: a deterministic sample (non-ASCII strings and matching pairs first), thorough: everything
-    capv, capp = (500, 900) if ck.tier == "quick" else (10 ** 9, 10 ** 9)
+    # quick tier: a deterministic sample (half non-ASCII strings, two thirds matching pairs), thorough: 12x as many, in shards
+    capv, capp = (500, 900) if ck.tier == "quick" else (6000, 10800)
+
     def mix(items, isascii, cap):
         a = sorted([kv for kv in items if isascii(kv)], key=lambda kv: kv[0])
         b = sorted([kv for kv in items if not isascii(kv)], key=lambda kv: kv[0])
@@ -322,22 +323,30 @@ def tok_stream(ck, bcases, splitbytes):
     pl += mix([kv for kv in pairs.items() if not kv[1]], lambda kv: all(x < 128 for x in json.loads(kv[0])[1]), capp - len(pl))
     have = set(k for k, _ in pl)
     pl += [(k, pairs[k]) for k in fixed if k not in have]
-    txt = ("From Coq Require Import List Bool Arith NArith. From OG Require Import C20.Corr.\nImport ListNotations.\nOpen Scope N_scope.\n"
-           "Definition R := Eval vm_compute in tok_results %s\n %s\n %s.\nPrint R.\n") % (
-        nl(splitbytes),
-        "(" + coq_list(["(%s, (%s : list (list N)))" % (nl(json.loads(k)), coq_list([nl(tk_) for tk_ in v])) for k, v in vl]) + " : list (list N * list (list N)))",
-        "(" + coq_list(["(%s, %s, %s)" % (nl(json.loads(k)[0]), nl(json.loads(k)[1]), coq_bool(v)) for k, v in pl]) + " : list (list N * list N * bool))")
-    (rc, o), = ck.coq_eval_many([("tok0", txt)], timeout=600)
-    m = re.search(r"R\s*=\s*\((.*?)\)\s*:\s*list nat \* list nat", o, re.S) if rc == 0 else None
-    if not m:
-        ck.broken.append("tokenizer tie: model evaluation failed: %s" % o[-300:])
-        return None
-    lists = re.findall(r"\[([^\]]*)\]", m.group(1))
-    if len(lists) != 2:
-        ck.broken.append("tokenizer tie: unparsable model output: %s" % o[-300:])
-        return None
-    bad_v = [int(x) for x in re.findall(r"\d+", lists[0])]
-    bad_p = [int(x) for x in re.findall(r"\d+", lists[1])]
+    files, spans = [], []
+    nsh = max((len(vl) + 499) // 500, (len(pl) + 899) // 900, 1)
+    for sh in range(nsh):
+        v0, p0 = sh * 500, sh * 900
+        vs, ps = vl[v0:v0 + 500], pl[p0:p0 + 900]
+        txt = ("From Coq Require Import List Bool Arith NArith. From OG Require Import C20.Corr.\nImport ListNotations.\nOpen Scope N_scope.\n"
+               "Definition R := Eval vm_compute in tok_results %s\n %s\n %s.\nPrint R.\n") % (
+            nl(splitbytes),
+            "(" + coq_list(["(%s, (%s : list (list N)))" % (nl(json.loads(k)), coq_list([nl(tk_) for tk_ in v])) for k, v in vs]) + " : list (list N * list (list N)))",
+            "(" + coq_list(["(%s, %s, %s)" % (nl(json.loads(k)[0]), nl(json.loads(k)[1]), coq_bool(v)) for k, v in ps]) + " : list (list N * list N * bool))")
+        files.append(("tok%d" % sh, txt))
+        spans.append((v0, p0))
+    bad_v, bad_p = [], []
+    for (rc, o), (v0, p0) in zip(ck.coq_eval_many(files, timeout=600), spans):
+        m = re.search(r"R\s*=\s*\((.*?)\)\s*:\s*list nat \* list nat", o, re.S) if rc == 0 else None
+        if not m:
+            ck.broken.append("tokenizer tie: model evaluation failed: %s" % o[-300:])
+            return None
+        lists = re.findall(r"\[([^\]]*)\]", m.group(1))
+        if len(lists) != 2:
+            ck.broken.append("tokenizer tie: unparsable model output: %s" % o[-300:])
+            return None
+        bad_v += [v0 + int(x) for x in re.findall(r"\d+", lists[0])]
+        bad_p += [p0 + int(x) for x in re.findall(r"\d+", lists[1])]
     if bad_v:
         ck.broken.append("correspondence C20 tokenizer: TokModel.tokens differs from the real SimpleTokenizer's tokens for the value bytes %s" % vl[bad_v[0]][0])
     if bad_p:
@@ -636,18 +645,21 @@ def main(ck):
         have = set(f["id"] for f in ck.findings)
         ck.findings += [f for f in json.load(open(frag))["findings"] if f["property"] == PID and f["id"] not in have]
     ck.assumptions += [
-        "typed key values are compared by the harness through order-preserving encodings into Z (integers as themselves, "
-        "floats/strings/booleans by dense rank within the case; no NaN, no -0.0); literals have the column's type",
+        "typed key values are compared by the harness through order-preserving encodings into Z (integers and time as themselves, "
+        "floats/strings/booleans by dense rank within the case, the writer's pad value of the type included; no NaN; -0.0 = 0.0); "
+        "literals have the column's type",
         "rows handed to PKIndexWriterImpl.Build are in the order of the REAL record.SortHelper.SortForColumnStore (the column store's flush "
         "sort: a null key sorts as - and ties with - the smallest value the writer knows for the type); other orders (e.g. the one a "
         "block-wise compaction merge produces with its *WithLimit padding) are not covered",
-        "row semantics of the condition: a null satisfies no comparison (lib/binaryfilterfunc drops nulls for every operator)",
-        "bloom filter: the hash function is abstract (Section variable); MATCHPHRASE row semantics = the engine's SimpleTokenFinder; premise "
-        "match_tokens (a matching value yields every token the reader derives from the phrase, at least one) - violated by today's pure-Go "
-        "build for gram / token-less phrases (finding C20-bloom-gram-phrase)",
-        "min-max skip index: MinMaxWriter writes nothing and MinMaxIndexReader.ReInit panics on the nil ReadFunc in production (probed on every "
-        "run), set skip index: not creatable (grammar) - neither can prune, no stream; VerticalFilterReader / detached OBS filter files and the "
-        "full-text / IP bloom tokenizers are not exercised",
+        "row semantics of the condition: a null satisfies no comparison (lib/binaryfilterfunc drops nulls for every operator); MATCHPHRASE = "
+        "the engine's SimpleTokenFinder, IPINRANGE = binaryfilterfunc.IsIpInRange",
+        "bloom filter: the hash function is abstract (Section variable). Tokenizers: modelled (TokModel.v) and tied on every run; the inclusion "
+        "'a matching value yields every token of the phrase' is PROVED for values without bytes >= 0x80 and stays a premise for non-ASCII text "
+        "(false for today's byte-wise writer: finding C20-bloom-nonascii-token-boundary); gram / token-less phrases: finding C20-bloom-gram-phrase",
+        "min-max / set skip indexes: inert in production (checked obligation 'skprobe': reader from the registered creator has no ReadFunc and "
+        "ReInit panics, the writers write nothing, `set` is refused by the parser); the min-max pruning rule is proved (C20_minmax_sound) and the "
+        "real CheckInRange is driven over its rectangles, but no min-max reader / writer implementation is tied to it",
+        "not exercised: the cgo `logstore` build, full-text (MultiField*) and IP bloom readers, NaN keys, Field_Type_Tag sort keys",
     ]
     ck.cov["trusted_base"] = ["Coq 8.16.1 kernel + vm_compute (cases evaluation, Refuted witnesses, Examples)",
                               "no axioms (Print Assumptions: closed)", "Go harness cmd/c20 (generator, brute-force oracle, "
